@@ -28,7 +28,7 @@ func init() {
 				"copy QueryLogEnabled and IPLogEnabled from the fields of the same name, and newRequestInfo re-initialises every " +
 				"field of the pooled request information on every path, so a request never inherits the previous request's profile.",
 			NotCovered: "JSON well-formedness of arbitrary field contents (encoding/json trusted); atomicity of O_APPEND writes in the kernel.",
-			Rules: map[string]string{"C15-R1": "recordQueryInfo gates and entry provenance", "C15-R2": "sole callers of log/billing sinks; record only after the write",
+			Rules: map[string]string{"C15-R11": "clone methods of filtering results copy every field (list and rule IDs are what gets logged)", "C15-R1": "recordQueryInfo gates and entry provenance", "C15-R2": "sole callers of log/billing sinks; record only after the write",
 				"C15-R3": "single append write from the pooled buffer", "C15-R4": "result switches exhaustive", "C15-R5": "every field of the entry is written",
 				"C15-R6": "the logging opt-in flags are copied name-to-name by the backend and file-cache conversions; the recycled request-information object (which carries the profile attribution) is fully re-initialised"},
 		}})
@@ -57,6 +57,12 @@ func runC15(c *an.Ctx) {
 	c.Borrow("C15-R8", runC10, func(o an.Obligation) bool { return o.Rule == "C10-R2" && strings.Contains(o.Key, "Wrap$1") })
 	c.Inf("C15-R6", "hand-off sweep", token.NoPos, "%d hand-offs of a fresh object to a function that keeps it examined in dnssvc and cmd",
 		sharedRetainedArgs(c, "C15-R6", "dnssvc.", "cmd."))
+	// ---- R11: a filtering result cloned for a request keeps the list and rule that produced it (they are what is logged)
+	if n := sharedCloneComplete(c, "C15-R11", nil, "filter/internal.", "filter.", "agd.", "dnsmsg."); n >= 2 {
+		c.Ok("C15-R11", "clone methods of results and messages copy every field", token.NoPos, "%d clone methods examined", n)
+	} else {
+		c.Und("C15-R11", "clone methods of results and messages copy every field", token.NoPos, "only %d clone methods found", n)
+	}
 	c.Floor("C15-R7", 1)
 	mainPipeline(c, "C15-R7")
 	c.Floor("C15-R1", 1)
